@@ -156,3 +156,27 @@ func (db *DB) SelectAll(table string) ([]*tuple.Tuple, *schema.Schema, bool) {
 	db.Shi.GetTransactionManager().Commit(db.Cat, txn)
 	return rows, tm.Schema(), false
 }
+
+func Update(table string, setCols []string, setVals []types.Value, where *parser.BinaryOpExpression) *parser.QueryInfo {
+	qi := parser.NewRootSQLVisitor().QueryInfo
+	*qi.QueryType = parser.UPDATE
+	qi.JoinTables_ = []*string{sp(table)}
+	for i := range setCols {
+		v := setVals[i]
+		qi.SetExpressions = append(qi.SetExpressions, &parser.SetExpression{ColName: sp(setCols[i]), UpdateValue: &v})
+	}
+	if where != nil {
+		qi.WhereExpression = where
+	}
+	return qi
+}
+
+func Delete(table string, where *parser.BinaryOpExpression) *parser.QueryInfo {
+	qi := parser.NewRootSQLVisitor().QueryInfo
+	*qi.QueryType = parser.DELETE
+	qi.JoinTables_ = []*string{sp(table)}
+	if where != nil {
+		qi.WhereExpression = where
+	}
+	return qi
+}
